@@ -3,7 +3,7 @@
 From Coq Require Import ZArith List Bool Reals Permutation.
 From RV Require Import Common.Num Common.RealNum C15.Boundary C15.Tree C15.Tree2 C15.Update C15.BoundaryProofs C15.TreeProofs C15.GravityProofs
   C15.CanonProofs C15.ForestProofs C15.UpdateProofs C15.PruneProofs Gen.UsesTree C15.UsesTree
-  C15.PathModel C15.PathSpec C15.PathRun C15.PathProofsC C15.PathProofsI C15.PathGeoProofs.
+  C15.PathModel C15.PathSpec C15.PathRun C15.PathProofsC C15.PathProofsI C15.PathGeoProofs Gen.TreeOrder C15.TreeOrder.
 Import ListNotations.
 
 (* Periodic wrap of one coordinate (both C while-loops), any box length L>0, any x: once the fuel covers |x|/L the
@@ -195,7 +195,7 @@ Print Assumptions C15_gravity_forest.
 
 (* ===== round 3: one predicate "the tree is in use" for every decision site =====
    Regenerated from the current source (Gen/UsesTree.v): the conditions of reb_input_fields (rebuild after restore/copy),
-   reb_simulation_add_local (insert), reb_simulation_move_to_com (update) ARE uses_tree for every gravity/collision mode and
+   reb_simulation_add_local_store (insert, also the re-insertion of the tree update), reb_simulation_move_to_com (update) ARE uses_tree for every gravity/collision mode and
    every flag value; the step's condition is (tree_needs_update || uses_tree); gravity data are refreshed iff the tree exists
    and tree gravity is selected; and uses_tree selects exactly the modules whose loops walk tree_root (collision TREE and
    LINETREE, gravity TREE).  A site that drops an alternative makes this false. *)
@@ -258,6 +258,23 @@ Theorem C15_update_tree_wf : forall u nx ny nz L, (0 < u)%Z -> (0 < nx)%Z -> (0 
       wf u (fun i => fst (px XP xd0 (sP XP st') i)) L (rootc_slot u nx ny nz L ri) t.
 Proof. exact update_tree_wf. Qed.
 Print Assumptions C15_update_tree_wf.
+
+(* ===== the ORDER boundary check -> tree update (regenerated call orders, Gen/TreeOrder.v) =====
+   In reb_simulation_step (both pairs, and the collision search that follows the second pair and starts with a tree update) and
+   in reb_simulation_move_to_com, every reb_simulation_update_tree is applied to a state in which all particles went through
+   reb_boundary_check since they last moved: this is the precondition under which the re-insertion of C15_update_tree_wf is
+   never refused for a periodic/shear box (refusal = the particle is dropped after N was decremented).  Swapping the two
+   calls at any of the sites makes this false. *)
+Theorem C15_tree_update_after_boundary_check : step_ok = true /\ move_to_com_ok = true /\ search_only_updates = true.
+Proof. vm_compute. repeat split; reflexivity. Qed.
+Print Assumptions C15_tree_update_after_boundary_check.
+
+(* REFUTED for the encounter steps of MERCURIUS and TRACE: they call reb_collision_search (hence, with collision = tree or
+   linetree, the tree update) after moving particles, without a boundary check, and while r->particles points to the
+   encounter subset: finding tree:hybrid_integrator_tree_collision (particles silently lost / endless loop). *)
+Theorem C15_tree_update_order_hybrid_refuted : hybrid_ok = false.
+Proof. vm_compute. reflexivity. Qed.
+Print Assumptions C15_tree_update_order_hybrid_refuted.
 
 (* Non-vacuity: three particles in a cell of level 3 (half-width 8) around the origin, two of them in the same
    octant two levels deep: the insertions succeed, the result is a node of 3 whose leaf list is [2;1;0]-permuted,
